@@ -15,7 +15,7 @@ CLAIMED = {
 
 CLAIMED["C10"] = dict(
     category="exploration",
-    text="Bounded-exhaustive input enumeration on the real front end: every token sequence of length <= 3 over a 71-symbol vocabulary (363k inputs), every directive x argument-list form (26k), every production at every sort (5k), every byte string of length <= 3 over a 12-byte alphabet as root and as import, and every single-token edit (delete/duplicate/swap/replace) of the mini corpus and small repository sources; each input is analysed in-process under catch_unwind in an isolated worker (abort, stack overflow and time-out are observed by the parent), every diagnostic is rendered through ariadne and through the CLI's own DiagnosticRenderer, and every reported span is checked against the file. Inputs above the bounds, and deep nesting, are not covered.",
+    text="Bounded-exhaustive input enumeration on the real front end: every token sequence of length <= 3 over a 71-symbol vocabulary (363k inputs), every directive x argument-list form (26k), every production at every sort (5k), every byte string of length <= 3 over a 12-byte alphabet as root and as import, and every single-token edit (delete/duplicate/swap/replace) of the mini corpus and small repository sources; each input is analysed in-process under catch_unwind in an isolated worker (abort, stack overflow and time-out are observed by the parent), every diagnostic is rendered through ariadne and through the CLI's own DiagnosticRenderer, and every reported span is checked against the file. Literal bodies: every character string of length <= 3 over 13 characters as a char and a string literal in an accepted and a rejected context (9,520 inputs). Inputs above the bounds, and deep nesting, are not covered.",
     design_ref="C10",
     note="Trusts catch_unwind + worker-process death as crash observers and a 30-120 s per-case watchdog as the loop observer; the CLI exit status itself is pinned by C16's process-level runs.",
     technique="bounded-exhaustive enumeration of token sequences, directive forms and token edits, each executed on the real front end under a panic/abort/time-out observer",
@@ -38,7 +38,7 @@ CLAIMED["C01"] = dict(
 )
 CLAIMED["C02"] = dict(
     category="exploration",
-    text="Every program of " + UNI + ", printed under fresh naming and under maximal shadowing, is run on zydeco_dynamics::Runtime and on an independent big-step CBPV evaluator over the harness AST (no shared code with desugaring, resolution, linking or the CK machine); output bytes and final result must agree. Exhaustive below the bound.",
+    text="Every program of " + UNI + ", printed under fresh naming and under maximal shadowing, is run on zydeco_dynamics::Runtime and on an independent big-step CBPV evaluator over the harness AST (no shared code with desugaring, resolution, linking or the CK machine); output bytes and final result must agree. Exhaustive below the bound. The System-F universe adds records (named components, projection, groups of projection patterns on records and packages; 6,180 programs) checked against a type-erasing evaluator.",
     design_ref="C02",
     note="Trusts the reference evaluator (boring by construction; validated by mass agreement) and the printer's precedence handling.",
     technique="bounded-exhaustive program enumeration with a differential oracle against an independent reference evaluator",
@@ -97,14 +97,14 @@ CLAIMED["C14"] = dict(
 )
 CLAIMED["C15"] = dict(
     category="model_checking",
-    text="Stateless exploration of every history of <= 3 (thorough: 4) session operations (set_overlay, clear_overlay, write+refresh_disk, delete+refresh_disk over 4 interdependent files and 13 content variants; 34 operations) on a real long-lived CompilerSession, in three observation schedules (after every step, only at the end, with an analysis of the other root in between); after each observation a fresh session over the same directory and overlays must give the same graph, verdict, report messages and spans, query results and run result. 114k histories / 340k operations in the quick tier.",
+    text="Stateless exploration of every history of <= 3 (thorough: 4) session operations (set_overlay, clear_overlay, write+refresh_disk, delete+refresh_disk over 4 interdependent files and 13 content variants; 34 operations) on a real long-lived CompilerSession, in three observation schedules (after every step, only at the end, with an analysis of the other root in between); after each observation a fresh session over the same directory and overlays must give the same graph, verdict, report messages and spans, query results and run result; two more schedules make every observation (warm-up included) on a snapshot that is dropped afterwards, as a language server does per request. 190k histories in the quick tier.",
     design_ref="C15",
     note="No state merging (memo state is history dependent). check_resolved is not in the alphabet yet.",
     technique="exhaustive enumeration of operation histories on the implementation with a fresh-session differential oracle",
 )
 CLAIMED["C16"] = dict(
     category="exploration",
-    text="The real zydeco binary, one fresh process per (file, command, instance): compile/builtin fixtures x {check, run, build -t zir|zasm|asm|llvm}, fail/exec fixtures x {check, fmt}, multi-error programs x check; instances = hash seeds owned through an LD_PRELOAD getrandom interposer plus one run without ASLR; stdout, stderr and exit status must be byte-identical across instances. Plus in-process diagnostics of error-injected block shapes under 7 seeds, and 2.5k ill-typed programs of many error kinds each checked by the real binary under 3 seeds.",
+    text="The real zydeco binary, one fresh process per (file, command, instance): compile/builtin fixtures x {check, run, build -t zir|zasm|asm|llvm}, fail/exec fixtures x {check, fmt}, multi-error programs x check; instances = hash seeds owned through an LD_PRELOAD getrandom interposer plus one run without ASLR; stdout, stderr and exit status must be byte-identical across instances. Plus in-process diagnostics of error-injected block shapes under 7 seeds, and 2.5k ill-typed programs of many error kinds plus 53 coverage rejections whose diagnostic lists several things (missing / repeated destructors, missing constructors) each checked by the real binary under 3 seeds.",
     design_ref="C16",
     note="A bounded enumeration of the hash-seed space (4 quick / 16 thorough), not of all iteration orders; address dependence only probed by ASLR on/off.",
     technique="enumeration of hash seeds per process (owned nondeterminism) with a byte-identity oracle across instances",
@@ -118,7 +118,7 @@ CLAIMED["C18"] = dict(
 )
 CLAIMED["C19"] = dict(
     category="translation_validation",
-    text="Every accepted program of " + UNI + ", every runnable repository fixture under lib/tests and 9 hand-written binder forms is converted to first-order SPS by the real pipeline and run on the harness's SPSLow reference machine (layout-aware flat products, blocks closed over their own label, name-checked tags, host operations = the repository's implementations reached through the interpreter's Prim step); output and result must equal the interpreter's.",
+    text="Every accepted program of " + UNI + ", every runnable repository fixture under lib/tests and 9 hand-written binder forms is converted to first-order SPS by the real pipeline and run on the harness's SPSLow reference machine (layout-aware flat products, blocks closed over their own label, name-checked tags, host operations = the repository's implementations reached through the interpreter's Prim step); output and result must equal the interpreter's, and neither side may still be running after 200 times the other's steps. Hand-written forms add 60 recursive fix programs (variable / alias binder, five ways of entering) and matches without arms.",
     design_ref="C19",
     note="The machine is new code validated by mass agreement on the unchanged tree; native execution is unavailable offline.",
     technique="bounded-exhaustive program enumeration with per-program translation validation on a reference machine for the target IR",
@@ -126,7 +126,7 @@ CLAIMED["C19"] = dict(
 
 CLAIMED["C06"] = dict(
     category="model_checking",
-    text="All 126 host roles: (1) table agreement (arity vs declared classifier vs stack-IR table, names); (2) each role executed through Computation::Prim on a live Runtime with the full cross product of per-atom boundary domains read off its declared classifier (21k calls quick), generic oracle = exactly the declared arguments consumed and a result / continuation selection of the declared shape, plus an independent Vec<char> reference for the 16 text/bytes/char roles; (3) explicit-state exploration of every I/O operation sequence of length <= 3 (thorough 4) over a 25-operation alphabet on one live runtime against a handle/file model (closed handles stay closed, failures on the error continuation with the predicted kind, bytes equal the model); (4) for every role, the declared signature rendered to source is accepted and runs, and every one-position mutation of the classifier tree (6.4k mutants), relabelling to other roles and duplication is rejected; (5) 492 closed source programs call each role through a minimal Builtin signature (role first / last, two argument tuples) and print exactly what the Prim-level call gives. Decides the property on these domains; argument values outside the boundary domains and OS-level I/O failures other than missing path / closed handle are not covered.",
+    text="All 126 host roles: (1) table agreement (arity vs declared classifier vs stack-IR table, names); (2) each role executed through Computation::Prim on a live Runtime with the full cross product of per-atom boundary domains read off its declared classifier (21k calls quick), generic oracle = exactly the declared arguments consumed and a result / continuation selection of the declared shape, plus an independent Vec<char> reference for the 16 text/bytes/char roles; (3) explicit-state exploration of every I/O operation sequence of length <= 3 (thorough 4) over a 25-operation alphabet on one live runtime against a handle/file model (closed handles stay closed, failures on the error continuation with the predicted kind, bytes equal the model); (4) for every role, the declared signature rendered to source is accepted and runs, and every one-position mutation of the classifier tree (6.4k mutants), relabelling to other roles and duplication is rejected; (5) 492 closed source programs call each role through a minimal Builtin signature (role first / last, two argument tuples) and print exactly what the Prim-level call gives. Decides the property on these domains; the I/O machine's file and stdin contents contain CR LF, CR CR LF and a final CR (line reading per docs/proposals/filesystem.md); argument values outside the boundary domains and OS-level I/O failures other than missing path / closed handle are not covered.",
     design_ref="C06",
     note="Trusts the harness's reading of the classifier (BuiltinOperationAbi::for_role is the declared type; lib/std/builtin.zy is tied to it by the repository's own acceptance of the standard library, exercised by every corpus program) and the marker-thunk decoding of continuation selection.",
     technique="exhaustive enumeration of roles x boundary argument tuples, of all short I/O operation sequences against a reference model, and of all one-position signature mutations, on the real code",
